@@ -36,7 +36,19 @@ def scenario_k(mode):
           runtime.yield_point('body-%d' % i)
       except threads.ThreadTerminationError:
         runtime.vlog('exc-in-body')
-        raise
+        if mode != 'double-kill':
+          raise
+        # a body that absorbs the first request (a retry wrapper, a clean-up handler) and goes on working
+        runtime.vlog('swallowed')
+      if mode == 'double-kill':
+        box['swallowed'].set()
+        try:
+          for i in range(4):
+            runtime.vlog('body2-%d' % i)
+            runtime.yield_point('body2-%d' % i)
+        except threads.ThreadTerminationError:
+          runtime.vlog('exc2-in-body')
+          raise
       runtime.vlog('body-end')
 
     def _thread_exception(self, exc_type, exc_val, exc_tb):
@@ -50,6 +62,8 @@ def scenario_k(mode):
       return super(KT, self)._thread_exception(exc_type, exc_val, exc_tb)
 
     def _thread_finished(self):
+      if mode == 'double-kill':
+        box['swallowed'].set()        # (harness: never leave the second requester waiting)
       runtime.vlog('finished-start')
       try:
         runtime.yield_point('finished')
@@ -58,9 +72,27 @@ def scenario_k(mode):
         raise
       runtime.vlog('finished-end')
 
+  box = {}
+
   def fn(sched):
+    swallowed = box['swallowed'] = threading.Event()      # (created under the scheduler: a controlled primitive)
     t = KT(name='victim')
-    if mode == 'before-start':
+    if mode == 'double-kill':
+      def killer2():
+        runtime.vlog('kill-call')
+        t.kill()
+        runtime.vlog('kill-return')
+        swallowed.wait(5.0)
+        runtime.vlog('kill2-call')
+        t.kill()
+        runtime.vlog('kill2-return')
+      k = threading.Thread(target=killer2, name='killer')
+      runtime.vlog('start-call')
+      t.start()
+      k.start()
+      k.join()
+      t.join()
+    elif mode == 'before-start':
       runtime.vlog('kill-call')
       t.kill()
       runtime.vlog('kill-return')
@@ -122,6 +154,16 @@ def check_k(mode):
     def idx(name):
       return ev.index(name) if name in ev else None
 
+    if mode == 'double-kill':
+      # a second request made while the body (which absorbed the first one) still runs raises in it again
+      k2c, k2r, last, sw = idx('kill2-call'), idx('kill2-return'), idx('body2-3'), idx('swallowed')
+      # (a second request made before the first one was delivered merges with it: only requests after the swallow count)
+      if sw is not None and k2c is not None and k2c > sw and k2r is not None and (last is None or k2r < last) and 'exc2-in-body' not in ev:
+        out.append(('K:double-kill:second-request-dropped', 'kill() returned a second time while the body was still running, '
+                    'but no ThreadTerminationError was raised in it again; events %r' % (ev,), rep))
+      if 'kill-raised' in ev or 'exc-in-main' in ev:
+        out.append(('K:double-kill:misdelivered', 'events %r' % (ev,), rep))
+      return out
     kc, kr = idx('kill-call'), idx('kill-return')
     bs, be = idx('body-start'), idx('body-end')
     sc = idx('start-call')
@@ -183,6 +225,11 @@ def scenario_t(position, duration, after):
       runtime.vlog('timed-end')
       if after == 'raise':
         raise ValueError('timed body failed (in time)')
+      if after == 'repeat_ok':
+        # asks twice to be run again; every attempt takes `duration` < timeout, all three together take more
+        log.append(('attempt', time.monotonic()))
+        if sum(1 for e in log if e[0] == 'attempt') < 3:
+          return h.PhaseResult.REPEAT
       return h.PhaseResult.FAIL_AND_CONTINUE if after == 'fail' else None
 
     def other(test):
@@ -322,6 +369,15 @@ def check_t(cfg):
     if t0 is None or not timed:
       out.append(('T:%s:not-run' % tag, 'timed phase did not run: %r' % (v,), rep))
       return out
+    if after == 'repeat_ok':
+      # three attempts, each well inside its own timeout: none is a timeout (unless the explored clock deviations
+      # themselves held a finished body up past its deadline)
+      got = [(p[1], p[2]) for p in timed]
+      if ex.result.get('timer_deviations', 0) == 0 and (got != [('SKIP', 'PhaseResult'), ('SKIP', 'PhaseResult'), ('PASS', 'PhaseResult')]
+                                                          or v['outcome'] != 'PASS'):
+        out.append(('T:%s:attempt-deadline' % tag, 'three attempts of %.1fs each under a %.1fs timeout: records %r outcome %s '
+                    '(expected SKIP, SKIP, PASS / PASS)' % (duration, T, got, v['outcome']), rep))
+      return out
     trec = timed[0]
     # the moment the phase thread is back in KillableThread.run() after _thread_proc() returned (result stored)
     fin = finished_lineno()
@@ -369,7 +425,7 @@ def check_t(cfg):
   return check
 
 
-K_MODES = ['before-start', 'victim-first', 'killer-first']
+K_MODES = ['before-start', 'victim-first', 'killer-first', 'double-kill']
 
 
 def t_configs(tier):
@@ -377,7 +433,7 @@ def t_configs(tier):
   for pos in ('plain', 'main', 'teardown'):
     cfgs += [(pos, 9.5, 'none'), (pos, 'never', 'none')]
   cfgs += [('plain', 9.999, 'fail'), ('plain', 25.0, 'measure'), ('main', 25.0, 'measure'), ('plain', 9.5, 'raise'), ('main', 9.5, 'raise'),
-           ('monitored', 'never', 'none'), ('main', 'never', 'repeat2')]
+           ('monitored', 'never', 'none'), ('main', 'never', 'repeat2'), ('plain', 6.0, 'repeat_ok')]
   if tier == 'thorough':
     cfgs += [('plain', 10.5, 'measure'), ('teardown', 25.0, 'fail'), ('main', 9.999, 'measure')]
   return cfgs
